@@ -473,6 +473,18 @@ def r6(p, rep):
     if not preds and cand.unknown:
         raise AnalysisError("unrecognised idiom: cannot trace the first argument of the group-merging call back to filtered collections")
 
+    # the algorithm this rule knows: a table `variable id -> statements that read the variable`, filled by appending each
+    # statement under the id of each of its input variables.  Another liveness scheme (last-read positions, reference
+    # counts ...) cannot be judged by the enumerated filter shapes below: say so instead of reporting missing filters
+    dep_tables = set()
+    for n in ast.walk(f.node):
+        if isinstance(n, ast.Call) and isinstance(n.func, ast.Attribute) and n.func.attr == "append" and isinstance(n.func.value, ast.Subscript) and isinstance(n.func.value.value, ast.Name) and norm(n.func.value.slice).startswith("id(") and n.args and isinstance(n.args[0], ast.Name):
+            loops = [l for l in parents(n) if isinstance(l, ast.For)]
+            if any(isinstance(l.target, ast.Name) and l.target.id == n.args[0].id for l in loops) and any("input_variables" in norm(l.iter) for l in loops):
+                dep_tables.add(n.func.value.value.id)
+    if not dep_tables:
+        raise AnalysisError("unrecognised idiom: the name-fusion pass keeps no table of the statements that read each variable; its liveness test is not one of the enumerated shapes")
+
     # (1) allow_reusing_name
     ok1 = any(isinstance(t, ast.Attribute) and t.attr == "allow_reusing_name" and norm(t.value) == "_v" for x in preds for t, pol in decompose(x, True) if pol)
     rep.add("C04.R6", f"{comp.qualname}:fuse:allow_reusing_name", site, ok1, "candidates are filtered by allow_reusing_name" if ok1 else "imports / constants (allow_reusing_name=False) can lose their name to another value")
@@ -484,7 +496,7 @@ def r6(p, rep):
             if len(ge.generators) != 1 or ge.generators[0].ifs or not isinstance(ge.generators[0].target, ast.Name):
                 return None
             it = ge.generators[0].iter
-            if isinstance(it, ast.Subscript) and norm(it.slice) == "id(_v)" and "dependent" in norm(it.value):
+            if isinstance(it, ast.Subscript) and norm(it.slice) == "id(_v)" and norm(it.value) in dep_tables:
                 return ge.elt, ge.generators[0].target.id
         return None
 
@@ -775,6 +787,184 @@ def r10(p, rep):
             rep.add("C04.R10", f"{f.qualname}:import:{mod}:as:{name}", f"{f.module.rel}:{c.lineno}", len(mods) == 1, f"`{name}` always stands for {mods[0]}" if len(mods) == 1 else f"the name `{name}` is used for the different modules {mods}: a graph that needs both gets two import statements binding the same name, and the later one silently replaces the earlier module in the generated function")
 
 
+def _template_shape(ret, vparam):
+    """the returned text of an emitter as a string with '§' for a sub-expression hole (something computed with the
+    value_to_code callback) and '¤' for any other hole; None when the text is not a single f-string / concatenation"""
+    pieces = []
+
+    def add(e):
+        if isinstance(e, ast.Constant) and isinstance(e.value, str):
+            pieces.append(e.value)
+        elif isinstance(e, ast.JoinedStr):
+            for v in e.values:
+                add(v.value if isinstance(v, ast.FormattedValue) else v)
+        elif isinstance(e, ast.BinOp) and isinstance(e.op, ast.Add):
+            add(e.left)
+            add(e.right)
+        elif isinstance(e, ast.Call) and isinstance(e.func, ast.Name) and e.func.id == "str" and len(e.args) == 1:
+            add(e.args[0])
+        else:
+            sub = any(isinstance(x, ast.Name) and x.id == vparam for x in ast.walk(e))
+            pieces.append("§" if sub else "¤")
+
+    if not isinstance(ret, (ast.JoinedStr, ast.BinOp)):
+        if isinstance(ret, ast.Call) and isinstance(ret.func, ast.Attribute) and ret.func.attr in ("format", "join", "replace"):
+            return None  # text built from a template: see _format_shapes
+        if isinstance(ret, ast.Call) and any(isinstance(x, ast.Name) and x.id == vparam for x in ast.walk(ret)):
+            return "§"
+        return None
+    add(ret)
+    return "".join(pieces)
+
+
+def _format_shapes(g, fn, ret, vparam):
+    """`TEMPLATE.format(<sub-expressions>, name=<other>)` with TEMPLATE a string literal, or one of the values of a literal
+    dict / list bound once in the enclosing functions: the shapes of all candidate templates"""
+    import re
+
+    if not (isinstance(ret, ast.Call) and isinstance(ret.func, ast.Attribute) and ret.func.attr == "format"):
+        return []
+    pos_sub = any(isinstance(x, ast.Name) and x.id == vparam for a in ret.args for x in ast.walk(a))
+    kw_sub = {k.arg: any(isinstance(x, ast.Name) and x.id == vparam for x in ast.walk(k.value)) for k in ret.keywords if k.arg}
+
+    def literals(e, depth=0):
+        if isinstance(e, ast.Constant) and isinstance(e.value, str):
+            return [e.value]
+        if isinstance(e, ast.Subscript):
+            return literals(e.value, depth)
+        if isinstance(e, (ast.Dict,)):
+            return [x for v in e.values for x in literals(v, depth)]
+        if isinstance(e, (ast.List, ast.Tuple)):
+            return [x for v in e.elts for x in literals(v, depth)]
+        if isinstance(e, ast.Name) and depth < 3:
+            h = g
+            while h is not None:
+                defs = [a.value for a in walk_no_nested(h.node) if isinstance(a, ast.Assign) and any(isinstance(t, ast.Name) and t.id == e.id for t in a.targets)]
+                if defs:
+                    return [x for d in defs for x in literals(d, depth + 1)]
+                h = h.parent
+            try:
+                vals = common_module_var(g, e.id)
+            except Exception:
+                vals = []
+            return [x for d in vals for x in literals(d, depth + 1)]
+        return []
+
+    out = []
+    for lit in literals(ret.func.value):
+        def field(m):
+            name = m.group(1)
+            if name == "" or name.isdigit():
+                return "§" if pos_sub else "¤"
+            return "§" if kw_sub.get(name.split(".")[0].split("[")[0]) else "¤"
+
+        out.append(re.sub(r"\{([^{}:!]*)[^{}]*\}", field, lit))
+    return out
+
+
+def common_module_var(g, name):
+    return [st.value for st in g.module.tree.body if isinstance(st, ast.Assign) and any(isinstance(t, ast.Name) and t.id == name for t in st.targets)]
+
+
+def _closed_expression_text(t):
+    """does the template always denote ONE atom / postfix expression (so that it can be placed inside any other
+    expression without changing how that one groups)?  `(§ ¤ §)`, `§[¤]`, `§(¤)`, `getattr(§, §)`, `§.¤` - yes; `§ ¤ §` - no"""
+    t = t.strip()
+    if not t:
+        return False
+    pairs = {"(": ")", "[": "]", "{": "}"}
+
+    def skip_group(i):
+        depth, stack = 0, []
+        while i < len(t):
+            ch = t[i]
+            if ch in pairs:
+                stack.append(pairs[ch])
+            elif stack and ch == stack[-1]:
+                stack.pop()
+                if not stack:
+                    return i + 1
+            i += 1
+        return None
+
+    i = 0
+    if t[0] in pairs:
+        i = skip_group(0)
+        if i is None:
+            return False
+    else:
+        while i < len(t) and (t[i].isalnum() or t[i] in "_§¤."):
+            i += 1
+        if i == 0:
+            return False
+    while i < len(t):
+        if t[i] in "([":
+            i = skip_group(i)
+            if i is None:
+                return False
+        elif t[i] == ".":
+            i += 1
+            j = i
+            while i < len(t) and (t[i].isalnum() or t[i] in "_§¤"):
+                i += 1
+            if i == j:
+                return False
+        else:
+            return False
+    return True
+
+
+def r11(p, rep):
+    rep.rule("C04.R11", "text that is inlined into other expressions is a closed expression (an atom, a call, an index, an attribute, or parenthesised): operator nodes keep their grouping wherever they are placed", "template shape of every Inlined(...) emitter", floor=6)
+    comp = compile_func(p)
+    inner = [g for g in p.funcs.values() if g.module is comp.module]
+    n = 0
+    for g in inner:
+        if not isinstance(g.node, (ast.FunctionDef, ast.AsyncFunctionDef)):
+            continue
+        cfg = None
+        for c in walk_no_nested(g.node):
+            if not (isinstance(c, ast.Call) and norm(c.func).split(".")[-1] == "Inlined" and c.args):
+                continue
+            t = c.args[0]
+            fns = []
+            if isinstance(t, ast.Lambda):
+                fns = [t]
+            elif isinstance(t, ast.Name):
+                cfg = cfg or common.cfg_of(g)
+                at = cfg.node_for(c)
+                for d in (cfg._rd().defs_reaching(at, t.id) if at is not None else []):
+                    st = cfg.nodes[d].ast
+                    if isinstance(st, ast.FunctionDef) and st.name == t.id:
+                        fns.append(st)
+                    elif isinstance(st, ast.Assign) and isinstance(st.value, ast.Lambda):
+                        fns.append(st.value)
+            for fn in fns:
+                vparam = fn.args.args[0].arg if fn.args.args else None
+                if vparam is None:
+                    continue
+                if isinstance(fn, ast.Lambda):
+                    rets = [fn.body]
+                else:
+                    body = [st for st in fn.body if not isinstance(st, (ast.Assert,)) and not (isinstance(st, ast.Expr) and isinstance(st.value, ast.Constant))]
+                    rets = [body[-1].value] if body and isinstance(body[-1], ast.Return) and sum(1 for x in ast.walk(fn) if isinstance(x, ast.Return)) == 1 else []
+                shapes = []
+                for ret in rets:
+                    shape = _template_shape(ret, vparam)
+                    if shape is not None:
+                        shapes.append((ret, shape))
+                    else:
+                        shapes += [(ret, sh) for sh in _format_shapes(g, fn, ret, vparam)]
+                for ret, shape in shapes:
+                    if "§" not in shape:
+                        continue
+                    n += 1
+                    ok = _closed_expression_text(shape)
+                    rep.add("C04.R11", f"{g.qualname}:inlined:{shape[:40]}", f"{g.module.rel}:{getattr(ret, 'lineno', c.lineno)}", ok, f"emits `{shape}`: a closed expression" if ok else f"emits `{shape}`, which is not a closed expression: placed inside another operator, attribute access, index or call the operator precedence regroups it (`(a + b) * c` is written `a + b * c`)")
+    if n < 6:
+        raise AnalysisError(f"only {n} Inlined(...) templates recognised in the emitter")
+
+
 def run(p, rep, tier):
     r1(p, rep)
     r2(p, rep)
@@ -785,6 +975,7 @@ def run(p, rep, tier):
     r8(p, rep)
     r9(p, rep)
     r10(p, rep)
+    r11(p, rep)
     rep.rule("C06.R1", "IR nodes compare every field (graph equality drives inline decisions and pattern matching)", "T-SIB (__init__ vs __eq__)", floor=30)
     c06.r1(p, rep)
     if tier == "thorough":
